@@ -495,6 +495,53 @@ def scan_fmt(repo):
                 info['ecDen'] = _name(n.args[1].right)
         if info['ecReversed'] is None or not info['ecDen']:
             bad('Ratfun.expandcanonical')
+    # ---- Ratfun.canonical: the branches that skip a unit factor and the place where the undefined factor is attached
+    #   canonFC / canon = [kSkip, dSkip, nSkip, undefAt]:  `if K != <kSkip>` folds the gain, `if D == <dSkip>` omits 1/D,
+    #   `if N == <nSkip>` omits N (only the factor_const=False branch; -99 = no such test), undefAt = "top" when
+    #   `expr *= self.undef` is a statement of the branch body itself, "gain" when it sits under the `K != …` test, "?" otherwise
+    info['canonFC'], info['canon'] = [-99, -99, -99, '?'], [-99, -99, -99, '?']
+    fn = need(R, 'canonical', 'Ratfun.')
+    if fn is not None:
+        top = [n for n in fn.body if isinstance(n, ast.If) and _name(n.test) == 'factor_const']
+        if not top:
+            bad('Ratfun.canonical:if factor_const')
+        else:
+            def cmp_const(test, name, op):
+                if isinstance(test, ast.Compare) and len(test.ops) == 1 and isinstance(test.ops[0], op) and _name(test.left) == name:
+                    return _const(test.comparators[0])
+                return None
+
+            def is_undef_mul(st):
+                if isinstance(st, ast.AugAssign) and isinstance(st.op, ast.Mult) and _name(st.target) == 'expr' and _self_attr(st.value) == 'undef':
+                    return True
+                return False
+
+            def mentions_undef(node):
+                return any(_self_attr(m) == 'undef' for m in ast.walk(node))
+            for key, body in (('canonFC', top[0].body), ('canon', top[0].orelse)):
+                k = d = nn = -99
+                at = '?'
+                if any(is_undef_mul(st) for st in body):
+                    at = 'top'
+                for st in ast.walk(ast.Module(body=body, type_ignores=[])):
+                    if isinstance(st, ast.If):
+                        c = cmp_const(st.test, 'K', ast.NotEq)
+                        if isinstance(c, int):
+                            k = c
+                            if at != 'top' and any(mentions_undef(x) for x in st.body):
+                                at = 'gain'
+                        c = cmp_const(st.test, 'D', ast.Eq)
+                        if isinstance(c, int):
+                            d = c
+                        c = cmp_const(st.test, 'N', ast.Eq)
+                        if isinstance(c, int):
+                            nn = c
+                n_undef = sum(1 for st in ast.walk(ast.Module(body=body, type_ignores=[])) if _self_attr(st) == 'undef')
+                if n_undef != 1:
+                    at = '?'
+                info[key] = [k, d, nn, at]
+            if info['canonFC'][3] == '?' or info['canon'][3] == '?' or info['canonFC'][1] == -99 or info['canon'][1] == -99:
+                bad('Ratfun.canonical:branches')
     # ---- Expr.poles merge / _fmt_roots._wrap_list
     info['polesMerge'], info['listRepeat'] = '', ''
     fn = need(E, 'poles', 'Expr.')
@@ -525,7 +572,7 @@ def generate_fmt(repo):
         return '[%s]' % ', '.join(lstr(str(x)) for x in xs)
 
     def il(xs):
-        return '[%s]' % ', '.join('(%d : Int)' % x if isinstance(x, int) else '(0 : Int)' for x in xs)
+        return '[%s]' % ', '.join('(%d : Int)' % x if isinstance(x, int) and not isinstance(x, bool) else '(-99 : Int)' for x in xs)
 
     def iv(x, default=-99):
         return '%d' % (x if isinstance(x, int) and not isinstance(x, bool) else default)
@@ -581,6 +628,12 @@ def generate_fmt(repo):
              '/-- `Ratfun.expandcanonical()`: coefficients enumerated low power first (`reversed(all_coeffs())`); each term is divided by <ecDen> -/',
              'def ecReversed : Bool := %s' % ('true' if g['ecReversed'] else 'false'),
              'def ecDen : String := %s' % lstr(g['ecDen']),
+             '/-- `Ratfun.canonical`: per branch the constant of `if K != c` (gain folded only then), of `if D == c` (1/D omitted),',
+             '    of `if N == c` (N omitted; -99 = no such test), and where `expr *= self.undef` stands ("top" = statement of the branch) -/',
+             'def canonFCSkip : List Int := %s' % il(g['canonFC'][:3]),
+             'def canonFCUndefAt : String := %s' % lstr(g['canonFC'][3]),
+             'def canonSkip : List Int := %s' % il(g['canon'][:3]),
+             'def canonUndefAt : String := %s' % lstr(g['canon'][3]),
              '/-- `Expr.poles()`: `polesdict[key] <polesMerge>= pole.n`;  `_wrap_list`: `[root] * <listRepeat>` -/',
              'def polesMerge : String := %s' % lstr(g['polesMerge']),
              'def listRepeat : String := %s' % lstr(g['listRepeat']),
